@@ -10,6 +10,9 @@ open Demeter.GmxV2 Demeter.Gmx Demeter.Gmx2
 
 variable {pw : Rat → Rat → Rat}
 
+/-- in rational arithmetic `**` never raises `OverflowError`: the overflow branch of the model concerns doubles only -/
+theorem C17_v2_exact_pow_never_raises (cfg : Config Rat) (p : PoolParams Rat) : impactPowRaises (ratOps pw) cfg p = false := rfl
+
 /-- inversion of an accepted `deposit` -/
 theorem Gmx2.deposit_ok {cx : NumCtx} {cfg : Config Rat} {ps : Pool Rat} {lk sk : String} {s s' : State Rat} {la sa : Rat}
     {r : LPResult Rat} {tag : String}
@@ -27,6 +30,8 @@ theorem Gmx2.deposit_ok {cx : NumCtx} {cfg : Config Rat} {ps : Pool Rat} {lk sk 
     split at h
     · cases h
     · rename_i r' tag' hm
+      rw [show (!(ratOps pw).isFinite r'.gmAmount) = false from rfl] at h
+      simp only [Bool.false_eq_true, if_false] at h
       split at h
       · cases h
       · cases h
